@@ -146,7 +146,7 @@ func kirkCatchmentRun(c *Ctx, ds string, seed uint64, steps int, limVar int) {
 	})
 	initDraws := append([]int(nil), src.log...)
 	if pan != "" || k == nil || k.explorer == nil {
-		if strings.Contains(pan, "Attempt limit reached") {
+		if isGiveUp(pan) {
 			// the deliberate panic of Randomize() when the limit never binds within n attempts (C19's matter)
 			c.Stat(fmt.Sprintf("catchment: Randomize() gave up, limit never binds (skipped) limit=%s", limName(limVar)))
 			return
